@@ -2091,10 +2091,13 @@ func (t *Topic) replyGetDesc(sess *Session, asUid types.Uid, asChan bool, opts *
 	desc := &MsgTopicDesc{}
 	if opts == nil || opts.IfModifiedSince == nil {
 		// Send CreatedAt only when the user requests full information (nothing is cached at the client).
-		desc.CreatedAt = &t.created
+		// Copy the values: the message is serialized by another goroutine.
+		created := t.created
+		desc.CreatedAt = &created
 	}
 	if !t.updated.IsZero() {
-		desc.UpdatedAt = &t.updated
+		updated := t.updated
+		desc.UpdatedAt = &updated
 	}
 
 	pud, full := t.perUser[asUid]
@@ -2166,7 +2169,8 @@ func (t *Topic) replyGetDesc(sess *Session, asUid types.Uid, asChan bool, opts *
 		if (pud.modeGiven & pud.modeWant).IsReader() {
 			desc.SeqId = t.lastID
 			if !t.touched.IsZero() {
-				desc.TouchedAt = &t.touched
+				touched := t.touched
+				desc.TouchedAt = &touched
 			}
 
 			// Make sure reported values are sane:
@@ -2176,7 +2180,8 @@ func (t *Topic) replyGetDesc(sess *Session, asUid types.Uid, asChan bool, opts *
 			desc.RecvSeqId = max(pud.recvID, pud.readID)
 		} else {
 			// Send some sane value of touched.
-			desc.TouchedAt = &t.updated
+			updated := t.updated
+			desc.TouchedAt = &updated
 		}
 	}
 
